@@ -698,7 +698,7 @@ fn run_meta<K: KeyT, V: ValT>(a: &Args) {
 fn run_script<K: KeyT, V: ValT>(a: &Args) {
     let mut out = BufWriter::new(std::fs::File::create(a.get("out", "/dev/stdout")).unwrap());
     let f = std::fs::File::open(a.get("script", "")).expect("script");
-    let mut w: World<K, V> = World::new(4, a.num("content-limit", 64) as usize);
+    let mut w: World<K, V> = World::new(4, a.num("content-limit", 96) as usize);
     emit(&mut out, &header::<K>(a, json!({"mode":"script"})));
     rebase_live();
     for line in std::io::BufReader::new(f).lines() {
@@ -710,7 +710,7 @@ fn run_script<K: KeyT, V: ValT>(a: &Args) {
         match op["op"].as_str().unwrap_or("") {
             "Header" => continue,
             "Reset" => {
-                w = World::new(4, a.num("content-limit", 64) as usize);
+                w = World::new(4, a.num("content-limit", 96) as usize);
                 rebase_live();
                 emit(&mut out, &op);
                 if let Some(pre) = op.get("prefix_ops").and_then(|x| x.as_array()) {
